@@ -109,6 +109,81 @@ def expected_order(cls, shape, order):
     return py_get_order(shape, sp[0], sp[1])
 
 
+
+# ----------------------------------------------------------------------------------------------------
+# lattice-transforming methods (enlarge_mps_unit_cell, extract_segment): what their documentation promises
+# ----------------------------------------------------------------------------------------------------
+
+def base_counts(spec):
+    """(sites per unit cell, sites in the MPS unit cell) of the lattice of `spec` before any transform."""
+    Lu = spec['Lu']
+    ncells = int(math.prod(spec['Ls']))
+    w = spec.get('wrap')
+    if w is None:
+        return Lu, ncells * Lu
+    if w['kind'] == 'multi':
+        return Lu * w['n_species'], ncells * Lu * w['n_species']
+    if w['kind'] == 'irregular':
+        nadd = len(w['add'][0]) if w.get('add') else 0
+        return Lu + w.get('n_add_uc', 0), ncells * Lu - len(w.get('remove') or []) + nadd
+    if w['kind'] == 'helical':
+        return Lu, w['N_unit_cells'] * Lu
+    raise ValueError(w)
+
+
+def effective(spec):
+    """Shape, boundary conditions and site counts documented for the lattice of `spec` after spec['transform']:
+    enlarge_mps_unit_cell(f): (Lx, ...) -> (Lx*f, ...), N_sites -> f*N_sites, the order repeated f times shifted by Lx
+      (HelicalLattice: N_unit_cells -> f*N_unit_cells; the shape only grows if the new MPS unit cell does not fit);
+    extract_segment(first, last | enlarge): a copy enlarged by last // N_sites + 1, MPS sites first..last kept,
+      bc_MPS 'segment' (a finite lattice becomes periodic along x)."""
+    Ls = list(spec['Ls'])
+    bc = list(spec['bc'])
+    bc_MPS = spec['bc_MPS']
+    Lu, N = base_counts(spec)
+    w = spec.get('wrap')
+    tr = spec.get('transform')
+    nuc = w['N_unit_cells'] if (w and w['kind'] == 'helical') else None
+    first, last, f = 0, None, 1
+    if tr:
+        if tr['op'] == 'enlarge':
+            f = tr['factor']
+        elif tr['op'] == 'segment':
+            if tr.get('enlarge') is not None:
+                f = tr['enlarge']
+                last = f * N - 1
+            else:
+                first, last = tr['first'], tr['last']
+                f = last // N + 1
+            if bc_MPS == 'finite':
+                bc[0] = 'periodic'
+            bc_MPS = 'segment'
+        else:
+            raise ValueError(tr)
+    if f > 1:
+        if nuc is not None:
+            ncells = int(math.prod(Ls))
+            if nuc * f > ncells or ncells % (nuc * f) != 0:
+                Ls[0] *= f
+            nuc *= f
+        else:
+            Ls[0] *= f
+        N *= f
+    if last is None:
+        last = N - 1
+    return {'Ls': Ls, 'bc': bc, 'bc_MPS': bc_MPS, 'Lu': Lu, 'N': last - first + 1, 'first': first, 'last': last,
+            'factor': f, 'nuc': nuc, 'removed': first > 0 or last < N - 1, 'inf': bc_MPS != 'finite'}
+
+
+def transform_text(tr):
+    if not tr:
+        return ''
+    if tr['op'] == 'enlarge':
+        return ' .enlarge_mps_unit_cell(%d)' % tr['factor']
+    if tr.get('enlarge') is not None:
+        return ' .extract_segment(enlarge=%d)' % tr['enlarge']
+    return ' .extract_segment(%d, %d)' % (tr['first'], tr['last'])
+
 # ----------------------------------------------------------------------------------------------------
 # generators
 # ----------------------------------------------------------------------------------------------------
@@ -194,6 +269,110 @@ def make_queries(rng, Ls, Lu, N, infinite, max_upairs, n_multi, extra_dx=0):
         q['masked'] = [sorted(rng.sample(range(N), rng.randint(1, N))), list(range(N))]
     q['values2'] = N <= 12
     return q
+
+
+MAX_N_TRANSFORMED = 40
+
+
+def with_transform(rng, b, tr):
+    """copy of the lattice specification b with the transform tr and queries for the transformed lattice"""
+    s = {key: b[key] for key in ('cls', 'Ls', 'Lu', 'order', 'custom_perm', 'bc', 'bc_MPS', 'wrap', 'kind')}
+    s['transform'] = tr
+    eff = effective(s)
+    s['queries'] = make_queries(rng, eff['Ls'], eff['Lu'], eff['N'], eff['inf'], 4, 2)
+    s['queries']['geometry'] = True
+    return s
+
+
+def gen_transformed(ctx, scale, specs):
+    """Lattices produced by enlarge_mps_unit_cell / extract_segment from sampled lattices of every kind; the whole
+    battery of queries is run on the result."""
+    rng = ctx.rng
+    out = []
+    pools = {}
+    for s in specs:
+        if s['cls'] == 'Lattice' and len(s['Ls']) > 2:
+            continue
+        if base_counts(s)[1] * 2 > MAX_N_TRANSFORMED:
+            continue
+        pools.setdefault(s['kind'], []).append(s)
+    kinds = [k for k in ('regular', 'multi', 'irregular', 'regular', 'multi', 'irregular') if pools.get(k)]
+    for k in range(ctx.pick(72, 400) * scale):
+        pool = pools[kinds[k % len(kinds)]]
+        infinite = [x for x in pool if x['bc_MPS'] == 'infinite']
+        if infinite and (k % 4 or pool[0]['kind'] == 'irregular'):
+            pool = infinite
+        b = rng.choice(pool)
+        N = base_counts(b)[1]
+        fmax = min(3, MAX_N_TRANSFORMED // N)
+        ops = []
+        if b['bc_MPS'] == 'infinite':
+            ops += ['enlarge', 'enlarge', 'segment-enlarge']
+        # extract_segment(first, last) removes sites through an IrregularLattice of the copy: defined for regular lattices
+        # (any bc_MPS) and for a MultiSpeciesLattice as long as the MPS unit cell need not be enlarged
+        if b['kind'] in ('regular', 'multi'):
+            ops += ['segment']
+        if not ops:
+            continue
+        op = rng.choice(ops)
+        if op == 'enlarge':
+            tr = {'op': 'enlarge', 'factor': rng.randint(2, fmax)}
+        elif op == 'segment-enlarge':
+            tr = {'op': 'segment', 'enlarge': rng.randint(1, fmax)}
+        else:
+            top = N * (fmax if (b['bc_MPS'] == 'infinite' and b['kind'] == 'regular') else 1)
+            first = rng.randrange(0, N)
+            last = rng.randrange(first, top)
+            if rng.random() < 0.2:
+                first = 0
+            tr = {'op': 'segment', 'first': first, 'last': last}
+        out.append(with_transform(rng, b, tr))
+    # helical lattices: both the case that the enlarged MPS unit cell still fits into the regular lattice and the case
+    # that the regular lattice has to grow
+    for k in range(ctx.pick(30, 150) * scale):
+        cls = rng.choice(['Square', 'Triangular', 'Honeycomb', 'Kagome'])
+        Lu = CLS_LU[cls]
+        while True:
+            Ls = [rng.randint(1, 3), rng.randint(1, 3)]
+            ncells = Ls[0] * Ls[1]
+            nuc = rng.choice([n for n in range(1, ncells + 1) if ncells % n == 0])
+            f = rng.choice([2, 2, 3])
+            fits = ncells % (nuc * f) == 0
+            if fits == (k % 2 == 0) and nuc * f * Lu <= MAX_N_TRANSFORMED and ncells * Lu * (1 if fits else f) <= 2 * MAX_N_TRANSFORMED:
+                break
+        if Lu > 1 and rng.random() < 0.5:
+            us = list(range(Lu))
+            rng.shuffle(us)
+            order = ['grouped', [us]]
+        else:
+            order = 'Cstyle'
+        b = {'cls': cls, 'Ls': Ls, 'Lu': Lu, 'order': order, 'custom_perm': None, 'bc': ['periodic', -1],
+             'bc_MPS': 'infinite', 'wrap': {'kind': 'helical', 'N_unit_cells': nuc}, 'kind': 'helical'}
+        tr = {'op': 'enlarge', 'factor': f} if k % 3 else {'op': 'segment', 'enlarge': f}
+        out.append(with_transform(rng, b, tr))
+    return out
+
+
+def gen_multi_geometry(ctx, scale):
+    """MultiSpeciesLattice over every simple lattice class with 1-3 species on an open finite lattice: the predefined
+    pairs are compared with the positions and species of the sites."""
+    rng = ctx.rng
+    th = ctx.thorough()
+    out = []
+    fam = [('Chain', [3], 1), ('Ladder', [3], 2), ('NLegLadder', [2], 3), ('Square', [2, 3], 1), ('Triangular', [3, 2], 1),
+           ('Honeycomb', [2, 2], 2), ('Kagome', [2, 2], 3)]
+    if th:
+        fam += [('NLegLadder', [3], 2), ('NLegLadder', [2], 4), ('Honeycomb', [3, 2], 2), ('Kagome', [2, 3], 3), ('Square', [3, 3], 1)]
+    for (cls, Ls, Lu) in fam:
+        for nsp in (1, 2, 3):
+            names = rng.choice([None, ['a', 'b', 'c'][:nsp], ['up', 'down', 'x'][:nsp]])
+            s = {'cls': cls, 'Ls': Ls, 'Lu': Lu, 'order': 'default', 'custom_perm': None, 'bc': ['open'] * len(Ls),
+                 'bc_MPS': 'finite', 'wrap': {'kind': 'multi', 'n_species': nsp, 'names': names}, 'kind': 'multi'}
+            N = int(math.prod(Ls)) * Lu * nsp
+            s['queries'] = make_queries(rng, Ls, Lu * nsp, N, False, 3, 1)
+            s['queries']['geometry'] = True
+            out.append(s)
+    return out
 
 
 def gen_specs(ctx, scale):
@@ -316,6 +495,12 @@ def gen_specs(ctx, scale):
              'bc_MPS': 'infinite', 'wrap': {'kind': 'helical', 'N_unit_cells': nuc}, 'kind': 'helical'}
         s['queries'] = make_queries(rng, Ls, Lu, ncells * Lu, True, 4, 2)
         specs.append(s)
+    # the predefined pairs of the wrapped lattices are compared with the site positions as well
+    for s in specs:
+        if s['wrap'] is not None:
+            s['queries']['geometry'] = True
+    specs += gen_transformed(ctx, scale, specs)
+    specs += gen_multi_geometry(ctx, scale)
     # geometry: one open finite lattice per class and size, queries = the predefined pairs (filled in by the runner)
     for (cls, Ls, Lu) in fam:
         if cls == 'Lattice' or min(Ls) < 2:
@@ -471,27 +656,29 @@ class Geo:
         return sorted(out), cs
 
 
-def expected_full_order(spec, res):
+def expected_full_order(spec, res, eff=None):
     """documented order of the lattice of `spec` (None when the documentation does not fix it)."""
+    eff = eff or effective(spec)
     Ls, Lu = spec['Ls'], spec['Lu']
-    base = expected_order(spec['cls'], list(Ls) + [Lu], spec['order'] if isinstance(spec['order'], str) else spec['order'])
+    w = spec['wrap']
+    if w is not None and w['kind'] == 'helical':
+        # the helix runs C-style through the (possibly enlarged) regular lattice: its first N_unit_cells cells
+        base = expected_order(spec['cls'], list(eff['Ls']) + [Lu], spec['order'])
+        return None if base is None else base[:eff['nuc'] * Lu][eff['first']:eff['last'] + 1]
+    base = expected_order(spec['cls'], list(Ls) + [Lu], spec['order'])
     if base is None:
         return None
-    w = spec['wrap']
-    if w is None or w['kind'] in ('irregular', 'helical'):
+    if w is None or w['kind'] == 'irregular':
         if spec.get('custom_perm') is not None:
             base = [base[p] for p in spec['custom_perm']]
     if w is None:
-        return base
-    if w['kind'] == 'multi':
+        o = base
+    elif w['kind'] == 'multi':
         n = w['n_species']
         o = [r[:-1] + [r[-1] * n + sp] for r in base for sp in range(n)]
         if spec.get('custom_perm') is not None:
             o = [o[p] for p in spec['custom_perm']]
-        return o
-    if w['kind'] == 'helical':
-        return base[:w['N_unit_cells'] * Lu]
-    if w['kind'] == 'irregular':
+    elif w['kind'] == 'irregular':
         rem = set(tuple(r) for r in (w.get('remove') or []))
         keyed = [(k, 0, k, r) for k, r in enumerate(base) if tuple(r) not in rem]
         if w.get('add'):
@@ -501,8 +688,12 @@ def expected_full_order(spec, res):
                     mp = regpos[tuple(li[:-1]) + (Lu - 1,)]
                 keyed.append((mp, 1, n, li))
         keyed.sort(key=lambda t: t[:3])
-        return [list(t[3]) for t in keyed]
-    return None
+        o = [list(t[3]) for t in keyed]
+    else:
+        return None
+    # enlarge_mps_unit_cell: the MPS unit cell repeated along x; extract_segment: MPS sites first..last of that
+    o = [[r[0] + i * Ls[0]] + list(r[1:]) for i in range(eff['factor']) for r in o]
+    return o[eff['first']:eff['last'] + 1]
 
 
 def check_order_semantics(cls, shape, order, rows):
@@ -540,11 +731,11 @@ def grouped_1d(order, d):
     return d == 1 and not isinstance(order, str) and order[0] == 'grouped'
 
 
-def shift_open_full(spec, spread0):
+def shift_open_full(eff, spread0):
     """open x-direction, a shifted periodic direction and a displacement box as long as the lattice:
     coupling_shape (which ignores bc_shift) has an entry <= 0 and the code returns no coupling."""
-    return (spec['bc'][0] == 'open' and any(isinstance(b, int) and b != 0 for b in spec['bc'])
-            and spread0 >= spec['Ls'][0])
+    return (eff['bc'][0] == 'open' and any(isinstance(b, int) and b != 0 for b in eff['bc'])
+            and spread0 >= eff['Ls'][0])
 
 
 def oracle_one(args):
@@ -556,11 +747,16 @@ def oracle_one(args):
         if len(fails) < 6:
             fails.append((what, mk))
     w = spec['wrap']
+    wk = w['kind'] if w else None
     kind = spec['kind']
-    Ls = spec['Ls']
+    tr = spec.get('transform')
+    eff = effective(spec)
+    Ls = eff['Ls']                 # the shape documented for the (transformed) lattice
     d = len(Ls)
-    label = '%s%s %s bc=%s/%s order=%s%s' % (spec['cls'], Ls, kind, spec['bc'], spec['bc_MPS'], spec['order'],
-                                            ' +perm' if spec.get('custom_perm') else '')
+    label = '%s%s %s%s bc=%s/%s order=%s%s%s' % (spec['cls'], spec['Ls'], kind,
+                                                 ('[%s]' % ','.join('%s=%s' % kv for kv in sorted(w.items()) if kv[0] != 'kind')) if w else '',
+                                                 spec['bc'], spec['bc_MPS'], spec['order'],
+                                                 ' +perm' if spec.get('custom_perm') else '', transform_text(tr))
     if 'runner_error' in res:
         return counts, [('RUNNER ' + res['runner_error'][-300:], 'runner')], label
     if 'build_error' in res:
@@ -570,36 +766,57 @@ def oracle_one(args):
         return counts, [('constructing the lattice raised %s' % res['build_error'], mk)], label
     Lu = res['shape'][-1]
     order = res['order']
-    N = res['N_sites']
+    N = eff['N']                   # the number of sites documented for the (transformed) lattice
     inf = res['bc_MPS'] != 'finite'
+    # ---- shape and counts
+    if res['Ls'] != Ls or Lu != eff['Lu']:
+        fail('lattice shape %s, documented: %s' % (res['shape'], Ls + [eff['Lu']]), 'C19:shape')
+    if res['N_sites'] != N:
+        fail('N_sites = %d, but the lattice%s has %d sites in the MPS (unit cell) and len(order) = %d'
+             % (res['N_sites'], transform_text(tr), N, len(order)), 'C19:N_sites')
+    ncells = eff['nuc'] if wk == 'helical' else int(math.prod(Ls))
+    if res['N_cells'] != ncells:
+        fail('N_cells = %d, expected %d' % (res['N_cells'], ncells), 'C19:N_cells')
+    if res['bc_MPS'] != eff['bc_MPS']:
+        fail('bc_MPS = %r, documented: %r' % (res['bc_MPS'], eff['bc_MPS']), 'C19:bc_MPS')
     # ---- the order: distinct valid lattice indices; all of them for a regular lattice
     rows = [tuple(r) for r in order]
     box_ok = all(len(r) == d + 1 and all(0 <= r[a] < res['shape'][a] for a in range(d + 1)) for r in rows)
+    unusable = False
     if len(rows) != N:
-        fail('len(order) = %d != N_sites = %d' % (len(rows), N))
+        fail('len(order) = %d, but the lattice%s has %d sites' % (len(rows), transform_text(tr), N))
+        unusable = True
     if not box_ok:
         fail('order contains an index outside the lattice shape')
+        unusable = True
     if len(set(rows)) != len(rows):
         fail('order lists a site twice (MPS index -> lattice index not injective)')
+        unusable = True
     full = int(math.prod(res['shape']))
-    if kind in ('regular', 'multi', 'geometry') and len(set(rows)) != full:
+    full_sites = wk in (None, 'multi') and not eff['removed']
+    if full_sites and len(set(rows)) != full:
         fail('order of a regular lattice misses sites: %d of %d' % (len(set(rows)), full))
-    exp = expected_full_order(spec, res)
+        unusable = True
+    exp = expected_full_order(spec, res, eff)
     if exp is not None and [list(r) for r in exp] != order:
-        fail('order differs from the documented one for %r: got %s expected %s' % (spec['order'], order[:8], exp[:8]),
+        fail('order differs from the documented one for %r%s: got %s expected %s' % (spec['order'], transform_text(tr), order[:8], exp[:8]),
              'C19:order:' + (spec['order'] if isinstance(spec['order'], str) else spec['order'][0]))
+        unusable = True
     counts.append(('order', [label], N > 1, None))
-    if w is None and spec.get('custom_perm') is None:
+    if w is None and spec.get('custom_perm') is None and not tr:
         for p in check_order_semantics(spec['cls'], res['shape'], spec['order'], order):
             fail(p)
+            unusable = True
     # extra orderings evaluated through lat.ordering()
     for o, rws in zip(spec['queries'].get('orderings', []), res.get('orderings') or []):
         if isinstance(rws, dict):
             fail('ordering(%r) raised %s' % (o, rws['error']),
                  MK_GROUPED_1D if (grouped_1d(o, d) and 'numpy.float64' in rws['error']) else None)
+            unusable = True
             continue
-        if kind != 'regular':
+        if kind != 'regular' or tr:
             continue
+        nf = len(fails)
         e = expected_order(spec['cls'], res['shape'], o)
         if sorted(map(tuple, rws)) != sorted(itertools.product(*[range(L) for L in res['shape']])):
             fail('ordering(%r) is not a permutation of the lattice indices' % (o,))
@@ -608,15 +825,16 @@ def oracle_one(args):
                  'C19:ordering:' + (o if isinstance(o, str) else o[0]))
         for p in check_order_semantics(spec['cls'], res['shape'], o, rws):
             fail('ordering(%r): %s' % (o, p))
+        unusable = unusable or len(fails) > nf
         counts.append(('ordering', [spec['cls'], res['shape'], o], True, None))
-    if fails:
+    if unusable:
         return counts, fails, label
-    # ---- geometry object
+    # ---- geometry object (built on the documented shape, boundary conditions and site count)
     helical = None
-    if kind == 'helical':
+    if wk == 'helical':
         upos = {r[-1]: k for k, r in enumerate(order[:Lu])}
         helical = (Ls[1], Lu, upos, N)
-    geo = Geo(Ls, spec['bc'], res['bc_MPS'], order, helical)
+    geo = Geo(Ls, eff['bc'], eff['bc_MPS'], order, helical)
     q = spec['queries']
     # ---- index maps
     m2l = res['mps2lat']
@@ -680,7 +898,7 @@ def oracle_one(args):
         gp = [(a, b) for a, b, _ in got]
         ep = [(a, b) for a, b, _ in e]
         nontriv = len(e) > 0
-        if gp != ep and not gp and shift_open_full(spec, abs(dx[0])):
+        if gp != ep and not gp and shift_open_full(eff, abs(dx[0])):
             fail('possible_couplings(u1=%d,u2=%d,dx=%s) returns nothing, but %s are pairs of existing sites separated by dx under '
                  'the shifted boundary conditions' % (u1, u2, dx, ep[:4]), MK_SHIFT_OPEN)
         elif gp != ep:
@@ -692,7 +910,7 @@ def oracle_one(args):
         elif all(c > 0 for c in cs) and any(g[2] != x[2] for g, x in zip(got, e)):
             fail('possible_couplings(u1=%d,u2=%d,dx=%s): lat_indices %s, lower-left corners are %s'
                  % (u1, u2, dx, [g[2] for g in got][:6], [x[2] for x in e][:6]), 'C19:lat_indices')
-        if 's_v' in r and kind != 'helical':
+        if 's_v' in r and wk != 'helical':
             want = sorted((i, j, 1 + flat_c(c, cs)) for i, j, c in e)
             gots = sorted(zip(r['s_i'], r['s_j'], r['s_v']))
             if want != gots:
@@ -709,10 +927,10 @@ def oracle_one(args):
             fail('multi_coupling_shape(%s) = %s, documented %s' % (ops, r['shape'], cs), 'C19:multi_shape')
         got = sorted((tuple(a), tuple(b)) for a, b in zip(r['ijkl'], r['lat']))
         spread0 = max(o[0][0] for o in ops) - min(o[0][0] for o in ops)
-        if not got and e and shift_open_full(spec, spread0):
+        if not got and e and shift_open_full(eff, spread0):
             fail('possible_multi_couplings(%s) returns nothing, but %s exist under the shifted boundary conditions' % (ops, [x[0] for x in e][:4]),
                  MK_SHIFT_OPEN)
-        elif (spec['bc'][0] == 'open' and any(isinstance(b, int) and b != 0 for b in spec['bc'])
+        elif (eff['bc'][0] == 'open' and any(isinstance(b, int) and b != 0 for b in eff['bc'])
               and len(got) < len(e) and set(got) <= set(e)):
             fail('possible_multi_couplings(%s) misses rows %s (open x-direction + shifted bc)' % (ops, sorted(set(x[0] for x in e) - set(g[0] for g in got))[:4]),
                  MK_SHIFT_OPEN_MULTI)
@@ -722,19 +940,19 @@ def oracle_one(args):
         elif got != e:
             fail('possible_multi_couplings(%s): lat_indices %s, corners %s' % (ops, [g[1] for g in got][:6], [x[1] for x in e][:6]),
                  'C19:multi-lat_indices')
-        if 's_v' in r and kind != 'helical' and [g[0] for g in got] == [x[0] for x in e]:
+        if 's_v' in r and wk != 'helical' and [g[0] for g in got] == [x[0] for x in e]:
             want = sorted((i, 1 + flat_c(c, cs)) for i, c in e)
             gots = sorted((tuple(a), v) for a, v in zip(r['s_ijkl'], r['s_v']))
             if want != gots:
                 fail('possible_multi_couplings(..., strength) wrong strengths', 'C19:multi-strength')
         counts.append(('multi', [label, ops], len(e) > 0, None))
     # ---- mps2lat_values
-    if kind in ('regular', 'multi', 'geometry'):
+    if full_sites:
         v = res['values']
         if isinstance(v, dict):
             fail('mps2lat_values raised %s' % v['error'], 'C19:values-raise')
         else:
-            simple = spec['cls'] in ('Chain', 'Square', 'Triangular') and kind != 'multi'
+            simple = spec['cls'] in ('Chain', 'Square', 'Triangular') and wk != 'multi'
             for k, r in enumerate(order):
                 a = v
                 for c in (r[:-1] if simple else r):
@@ -809,12 +1027,12 @@ def oracle_one(args):
                      MK_MASKED if (inf and outside and not x0_slowest) else 'C19:masked')
             counts.append(('values_masked', [label, inds, r['incl']], True, None))
     # ---- geometry of the predefined pairs
-    if kind == 'geometry':
+    if q.get('geometry'):
         g = res.get('geometry')
         if g is None or 'error' in g:
             fail('geometry queries raised %s' % (g,))
         else:
-            geometry_checks(spec, res, g, geo, fail, counts, label)
+            geometry_checks(spec, eff, res, g, geo, fail, counts, label)
     return counts, fails, label
 
 
@@ -825,27 +1043,11 @@ def flat_c(c, cs):
     return f
 
 
-def geometry_checks(spec, res, g, geo, fail, counts, label):
-    Ls = spec['Ls']
-    d = len(Ls)
-    Lu = res['shape'][-1]
-    order = res['order']
-    basis, ucp = g['basis'], g['uc_pos']
-    Dim = len(basis[0])
-
-    def pos(x, u):
-        return [ucp[u][c] + sum(x[a] * basis[a][c] for a in range(d)) for c in range(Dim)]
-
-    def dist(p, q):
-        return math.sqrt(sum((a - b) ** 2 for a, b in zip(p, q)))
-    for k, r in enumerate(order):
-        if dist(pos(r[:-1], r[-1]), g['pos_order'][k]) > 1e-12:
-            fail('position(%s) = %s, documented sum_l x_l*basis[l] + unit_cell_positions[u] = %s' % (r, g['pos_order'][k], pos(r[:-1], r[-1])))
-    # distance shells of the infinite lattice (all ordered (u1, u2, dx) with dx in a window)
-    W = 5
+def distance_shells(Lu_range, d, pos, dist, W=5):
+    """[(distance, {(u1, u2, dx)})] sorted by distance: all ordered pairs of distinct positions with |dx_a| <= W"""
     allp = []
-    for u1 in range(Lu):
-        for u2 in range(Lu):
+    for u1 in Lu_range:
+        for u2 in Lu_range:
             for dx in itertools.product(range(-W, W + 1), repeat=d):
                 dd = dist(pos([0] * d, u1), pos(dx, u2))
                 if dd > 1e-9:
@@ -857,39 +1059,82 @@ def geometry_checks(spec, res, g, geo, fail, counts, label):
             shells[-1][1].add((u1, u2, dx))
         else:
             shells.append((dd, {(u1, u2, dx)}))
+    return shells
+
+
+def geometry_checks(spec, eff, res, g, geo, fail, counts, label):
+    Ls = eff['Ls']
+    d = len(Ls)
+    Lu = res['shape'][-1]
+    order = res['order']
+    basis, ucp = g['basis'], g['uc_pos']
+    Dim = len(basis[0])
+    w = spec['wrap']
+    wk = w['kind'] if w else None
+    # the predefined pairs of an IrregularLattice are those of its regular lattice: they relate the regular sites
+    Lu_pairs = spec['Lu'] if wk == 'irregular' else Lu
+
+    def pos(x, u):
+        return [ucp[u][c] + sum(x[a] * basis[a][c] for a in range(d)) for c in range(Dim)]
+
+    def dist(p, q):
+        return math.sqrt(sum((a - b) ** 2 for a, b in zip(p, q)))
+    for k, r in enumerate(order):
+        if dist(pos(r[:-1], r[-1]), g['pos_order'][k]) > 1e-12:
+            fail('position(%s) = %s, documented sum_l x_l*basis[l] + unit_cell_positions[u] = %s' % (r, g['pos_order'][k], pos(r[:-1], r[-1])))
+    # distance shells of the infinite lattice (all ordered (u1, u2, dx) with dx in a window)
+    shells = distance_shells(range(Lu), d, pos, dist)
+    shells_p = shells if Lu_pairs == Lu else distance_shells(range(Lu_pairs), d, pos, dist)
+
+    def rank(key):
+        """n if pairs[key] is documented as 'all pairs of sites at the (n+1). smallest distance', else None"""
+        if spec['cls'] == 'NLegLadder':
+            return None
+        if wk == 'multi':
+            key = key[:-len('_all-all')] if key.endswith('_all-all') else None
+        return NAMES5.index(key) if key in NAMES5 else None
+    if wk == 'multi':
+        multi_species_checks(spec, g, d, fail, counts, label)
     for key, plist in g['pairs'].items():
         tup = [(u1, u2, tuple(dx)) for u1, u2, dx in plist]
+        if any(not (0 <= u1 < Lu and 0 <= u2 < Lu and len(dx) == d) for u1, u2, dx in tup):
+            fail('pairs[%r] = %s contains an index outside the unit cell of %d sites' % (key, plist[:6], Lu), 'C19:pairs-range:' + key)
+            continue
         rev = [(u2, u1, tuple(-x for x in dx)) for u1, u2, dx in tup]
         ds = [dist(pos([0] * d, u1), pos(dx, u2)) for u1, u2, dx in tup]
         for a, b in zip(ds, g['dist'][key]):
-            if abs(a - b) > 1e-12:
+            if b is None or abs(a - b) > 1e-12:
                 fail('distance() of a pair of %r = %r, positions give %r' % (key, b, a), 'C19:distance')
         if len(set(tup)) != len(tup) or set(tup) & set(rev):
             fail('pairs[%r] lists a coupling twice (or together with its reverse)' % key, 'C19:pairs-dup:' + key)
-        if key in NAMES5 and spec['cls'] != 'NLegLadder':
-            sh = shells[NAMES5.index(key)]
+        rk = rank(key)
+        if rk is not None:
+            sh = shells_p[rk]
             if set(tup) | set(rev) != sh[1]:
                 fail('pairs[%r] are not the displacements at the %d. smallest Euclidean distance %.6f: differ by %s'
-                     % (key, NAMES5.index(key) + 1, sh[0], sorted((set(tup) | set(rev)) ^ sh[1])[:6]), 'C19:pairs:' + key)
-            for u in range(Lu):
+                     % (key, rk + 1, sh[0], sorted((set(tup) | set(rev)) ^ sh[1])[:6]), 'C19:pairs:' + key)
+            for u in range(Lu_pairs):
                 nb = sum(1 for (a, b, dx) in sh[1] if a == u)
                 if g['count'][key][u] != nb:
                     fail('count_neighbors(%d, %r) = %d, sites at that distance: %d' % (u, key, g['count'][key][u], nb), 'C19:count')
-        elif max(ds) - min(ds) > 1e-9 and not (spec['cls'] == 'NLegLadder' and key == 'nearest_neighbors'):
+        elif ds and max(ds) - min(ds) > 1e-9 and not (spec['cls'] == 'NLegLadder' and key.startswith('nearest_neighbors')):
             fail('pairs[%r] mixes different distances %s' % (key, sorted(set(round(x, 9) for x in ds))), 'C19:pairs-mixed:' + key)
-        counts.append(('pairs', [spec['cls'], Ls, key], True, None))
+        counts.append(('pairs', [label, key], True, None))
     # on the finite open lattice: couplings over pairs[key] = all site pairs at that Euclidean distance
+    open_finite = (not eff['inf'] and all(b == 'open' for b in eff['bc']) and wk in (None, 'multi') and not eff['removed'])
     cq = {(u1, u2, tuple(dx)): r for (u1, u2, dx), r in zip(spec['queries']['couplings'], res['couplings'])}
+    pc = g.get('pair_couplings') or {}
     P = g['pos_order']
     for key, plist in g['pairs'].items():
-        if not (key in NAMES5 and spec['cls'] != 'NLegLadder'):
+        rk = rank(key)
+        if rk is None or not open_finite:
             continue
-        dd = shells[NAMES5.index(key)][0]
+        dd = shells_p[rk][0]
         want = sorted((a, b) for a in range(len(P)) for b in range(a + 1, len(P)) if abs(dist(P[a], P[b]) - dd) < 1e-9)
         got = []
         complete = True
-        for u1, u2, dx in plist:
-            r = cq.get((u1, u2, tuple(dx)))
+        for n, (u1, u2, dx) in enumerate(plist):
+            r = pc[key][n] if key in pc else cq.get((u1, u2, tuple(dx)))
             if r is None or 'error' in r:
                 complete = False
                 break
@@ -898,7 +1143,7 @@ def geometry_checks(spec, res, g, geo, fail, counts, label):
             fail('couplings over pairs[%r] on the open %s lattice are not the site pairs at distance %.6f of position(): %s vs %s'
                  % (key, Ls, dd, sorted(got)[:8], want[:8]), 'C19:pairs-couplings:' + key)
         if complete:
-            counts.append(('pairs-couplings', [spec['cls'], Ls, key], len(want) > 0, None))
+            counts.append(('pairs-couplings', [label, key], len(want) > 0, None))
     fp = res.get('find_pairs')
     if isinstance(fp, list):
         for (dd, plist), sh in zip(fp, shells):
@@ -906,9 +1151,71 @@ def geometry_checks(spec, res, g, geo, fail, counts, label):
             rev = set((u2, u1, tuple(-x for x in dx)) for u1, u2, dx in tup)
             if abs(dd - sh[0]) > 1e-9 or (tup | rev) != sh[1] or (tup & rev):
                 fail('find_coupling_pairs: shell at distance %.6f differs from brute force' % dd, 'C19:find_coupling_pairs')
-            counts.append(('find_pairs', [spec['cls'], Ls, round(dd, 6)], True, None))
+            counts.append(('find_pairs', [label, round(dd, 6)], True, None))
     elif isinstance(fp, dict):
         fail('find_coupling_pairs raised %s' % fp['error'])
+
+
+def multi_species_checks(spec, g, d, fail, counts, label):
+    """MultiSpeciesLattice docstring: every site of the simple lattice is replaced by the species sites; for every pairs
+    key of the simple lattice there are '<key>_<a>-<b>' (species a at the first, b at the second site of each simple
+    pair), '<key>_all-all' (all combinations), '<key>_diag' (a == b), and 'onsite_<a>-<b>' (a before b) for two species
+    on the same simple site.  Which unit cell index carries which species / sits on which simple site is taken from the
+    observed site objects and positions, not from an index formula."""
+    w = spec['wrap']
+    n = w['n_species']
+    names = w.get('names') or [str(k) for k in range(n)]
+    simple = g.get('simple')
+    dims = g.get('uc_dims')
+    if simple is None or dims is None:
+        fail('runner did not report the simple lattice / the unit cell sites')
+        return
+    ucp = g['uc_pos']
+    sLu = len(simple['uc_pos'])
+    if len(ucp) != sLu * n:
+        fail('unit cell has %d sites, documented: %d simple sites x %d species' % (len(ucp), sLu, n), 'C19:multi-unit-cell')
+        return
+    sp_pos = simple['uc_pos']
+    if any(max(abs(x - y) for x, y in zip(sp_pos[i], sp_pos[j])) < 1e-12 for i in range(sLu) for j in range(i)):
+        return                         # simple sites without distinct positions (generic Lattice): nothing documented by position
+    # U[(su, a)] = the unit cell index of species a on the simple site su
+    U = {}
+    for u, (p, dm) in enumerate(zip(ucp, dims)):
+        a = dm - 2                     # the runner gives species k a site of dimension k + 2
+        su = [k for k, sp in enumerate(simple['uc_pos']) if max(abs(x - y) for x, y in zip(p, sp)) < 1e-12]
+        if len(su) != 1 or not 0 <= a < n or (su[0], a) in U:
+            fail('unit cell site %d (dim %d, position %s) is not exactly one species on one site of the simple lattice' % (u, dm, p),
+                 'C19:multi-unit-cell')
+            return
+        U[(su[0], a)] = u
+    if len(U) != sLu * n:
+        fail('not every species is present on every simple site: %s' % sorted(U), 'C19:multi-unit-cell')
+        return
+    norm = lambda plist: sorted((int(u1), int(u2), tuple(int(x) for x in dx)) for u1, u2, dx in plist)
+    want = {}
+    for key, plist in simple['pairs'].items():
+        al, dg = [], []
+        for a in range(n):
+            for b in range(n):
+                v = [(U[(u1, a)], U[(u2, b)], tuple(dx)) for u1, u2, dx in plist]
+                want['%s_%s-%s' % (key, names[a], names[b])] = v
+                al += v
+                if a == b:
+                    dg += v
+        want[key + '_all-all'] = al
+        want[key + '_diag'] = dg
+    for a in range(n):
+        for b in range(a + 1, n):
+            want['onsite_%s-%s' % (names[a], names[b])] = [(U[(su, a)], U[(su, b)], (0,) * d) for su in range(sLu)]
+    got = g['pairs']
+    if set(got) != set(want):
+        fail('pairs keys of the MultiSpeciesLattice: unexpected %s, missing %s' % (sorted(set(got) - set(want))[:6], sorted(set(want) - set(got))[:6]),
+             'C19:multi-pairs-keys')
+    for key in sorted(set(got) & set(want)):
+        if norm(got[key]) != norm(want[key]):
+            fail('pairs[%r] = %s, but the pairs %s of the simple lattice carried over to these species (by site position and site '
+                 'type) are %s' % (key, norm(got[key])[:6], key.rsplit('_', 1)[0], norm(want[key])[:6]), 'C19:multi-pairs')
+        counts.append(('multi-pairs', [label, key], True, None))
 
 
 # ----------------------------------------------------------------------------------------------------
@@ -991,12 +1298,70 @@ def coq_order_cases(specs, results):
         cases.append(coq_lit((list(shape), [bool(b) for b in snake], [Nat(p) for p in perm], [list(r) for r in rows])))
         info.append({'cls': cls, 'shape': shape, 'order': order})
     for spec, res in zip(specs, results):
-        if res is None or 'order' not in res or spec['kind'] != 'regular':
+        if res is None or 'order' not in res or spec['kind'] != 'regular' or spec.get('transform'):
             continue
         if spec.get('custom_perm') is None:
             add(spec['cls'], res['shape'], spec['order'], res['order'])
         for o, rws in zip(spec['queries'].get('orderings', []), res.get('orderings') or []):
             add(spec['cls'], res['shape'], o, rws)
+    return cases, info
+
+
+def coq_transform_cases(specs, results):
+    """(factor, Ls[0] before, first, len, order before, helical data, reported (Ls[0], N_sites, order) after) per lattice made
+    by enlarge_mps_unit_cell / extract_segment: Model/LatticeTransform.v recomputes shape, N_sites and order."""
+    cases, info = [], []
+    for k, (spec, res) in enumerate(zip(specs, results)):
+        if res is None or 'order' not in res or not spec.get('transform') or 'base' not in res:
+            continue
+        eff = effective(spec)
+        b = res['base']
+        w = spec['wrap']
+        if w and w['kind'] == 'helical':
+            hel = common.Some((Nat(b['reg_N_cells']), Nat(w['N_unit_cells']), Nat(spec['Lu']), [site_lit(r) for r in b['reg_order']]))
+        else:
+            hel = None
+        base_order = lit_list([site_lit(r) for r in b['order']], 'site')
+        new_order = lit_list([site_lit(r) for r in res['order']], 'site')
+        cases.append('(%s, %s, %s, %s, %s, %s, (%s, %s, %s))' % (
+            coq_lit(Nat(eff['factor'])), coq_lit(b['Ls'][0]), coq_lit(Nat(eff['first'])), coq_lit(Nat(eff['N'])), base_order,
+            coq_lit(hel) if hel is not None else '(@None (nat * nat * nat * list site))',
+            coq_lit(res['Ls'][0]), coq_lit(res['N_sites']), new_order))
+        info.append(k)
+    return cases, info
+
+
+def coq_species_cases(specs, results):
+    """(N_species, simple_Lu, dim, per pairs key of the simple lattice: its pairs and the reported '<key>_<a>-<b>', '_all-all',
+    '_diag' lists, reported 'onsite_<a>-<b>' lists) per MultiSpeciesLattice: Model/LatticeTransform.v recomputes the lists."""
+    cases, info = [], []
+    up = lambda plist: lit_list([(int(u1), int(u2), [int(x) for x in dx]) for u1, u2, dx in plist], 'upair')
+    for k, (spec, res) in enumerate(zip(specs, results)):
+        w = spec['wrap']
+        if res is None or not w or w['kind'] != 'multi':
+            continue
+        g = res.get('geometry')
+        if not isinstance(g, dict) or 'simple' not in g or 'pairs' not in g:
+            continue
+        n = w['n_species']
+        names = w.get('names') or [str(a) for a in range(n)]
+        got = g['pairs']
+        keys = []
+        ok = True
+        for key, plist in g['simple']['pairs'].items():
+            want_keys = ['%s_%s-%s' % (key, names[a], names[b]) for a in range(n) for b in range(n)] + [key + '_all-all', key + '_diag']
+            if any(x not in got for x in want_keys):
+                ok = False         # reported by the oracle (pairs keys)
+                break
+            sp = '[%s]' % '; '.join('[%s]' % '; '.join(up(got['%s_%s-%s' % (key, names[a], names[b])]) for b in range(n)) for a in range(n))
+            keys.append('(%s, %s, %s, %s)' % (up(plist), sp, up(got[key + '_all-all']), up(got[key + '_diag'])))
+        if not ok or any('onsite_%s-%s' % (names[a], names[b]) not in got for a in range(n) for b in range(a + 1, n)):
+            continue
+        ons = '[%s]' % '; '.join(('[%s]' % '; '.join(up(got['onsite_%s-%s' % (names[a], names[b])]) for b in range(a + 1, n)))
+                                 if a + 1 < n else '(@nil (list upair))' for a in range(n))
+        keys_lit = ('[%s]' % '; '.join(keys)) if keys else '(@nil (list upair * list (list (list upair)) * list upair * list upair))'
+        cases.append('(%s, %s, %s, %s, %s)' % (coq_lit(n), coq_lit(len(g['simple']['uc_pos'])), coq_lit(Nat(len(spec['Ls']))), keys_lit, ons))
+        info.append(k)
     return cases, info
 
 
@@ -1016,6 +1381,8 @@ def coq_value_cases(specs, results):
     for k, (spec, res) in enumerate(zip(specs, results)):
         if res is None or 'order' not in res or spec['kind'] not in ('regular', 'multi'):
             continue
+        if len(res['order']) != int(math.prod(res['shape'])):
+            continue          # extract_segment removed sites
         v, vu = res.get('values'), res.get('values_u')
         if v is None or vu is None or isinstance(v, dict) or isinstance(vu, dict):
             continue          # a raise is reported by the oracle stream
@@ -1068,7 +1435,8 @@ def main(ctx):
         orc = pool.map(oracle_one, list(zip(specs, results)), chunksize=8)
     hist = {}
     for spec, res, (counts, fails, label) in zip(specs, results, orc):
-        hist[spec['kind'] + ':' + spec['cls']] = hist.get(spec['kind'] + ':' + spec['cls'], 0) + 1
+        hk = spec['kind'] + ('+' + spec['transform']['op'] if spec.get('transform') else '') + ':' + spec['cls']
+        hist[hk] = hist.get(hk, 0) + 1
         for (stream, key, nontriv, sample) in counts:
             ctx.count(stream, key, nontrivial=nontriv, sample=sample)
         for what, mk in fails:
@@ -1118,6 +1486,29 @@ def main(ctx):
                  {'spec': {k: v for k, v in spec.items() if k != 'queries'}})
     for k in vinfo:
         ctx.count('model-values', [k, specs[k]['cls'], specs[k]['Ls'], str(specs[k]['order'])], nontrivial=len(results[k]['order']) > 1)
+    tcases, tinfo = coq_transform_cases(specs, results)
+    bad, err = common.coq_failing_indices('transform_c19', ['Base.Prelude', 'Model.Lattice', 'Model.LatticeTransform'],
+                                          'check_transform_case', tcases, shard=100)
+    if err:
+        ctx.fail('correspondence', 'model evaluation (enlarge_mps_unit_cell / extract_segment) failed: ' + err[-600:], None)
+    for b in bad[:5]:
+        spec = specs[tinfo[b]]
+        ctx.fail('correspondence', 'Model/LatticeTransform.v and lattice.py disagree on Ls[0] / N_sites / order of %s%s %s%s'
+                 % (spec['cls'], spec['Ls'], spec['kind'], transform_text(spec['transform'])),
+                 {'spec': {k: v for k, v in spec.items() if k != 'queries'}})
+    for k in tinfo:
+        ctx.count('model-transform', [k, specs[k]['cls'], specs[k]['Ls'], specs[k]['kind'], transform_text(specs[k]['transform'])], nontrivial=True)
+    scases, sinfo = coq_species_cases(specs, results)
+    bad, err = common.coq_failing_indices('species_c19', ['Base.Prelude', 'Model.Lattice', 'Model.LatticeTransform'],
+                                          'check_species_case', scases, shard=100)
+    if err:
+        ctx.fail('correspondence', 'model evaluation (MultiSpeciesLattice pairs) failed: ' + err[-600:], None)
+    for b in bad[:5]:
+        spec = specs[sinfo[b]]
+        ctx.fail('correspondence', 'Model/LatticeTransform.v and MultiSpeciesLattice._generate_new_pairs disagree on %s%s x %d species'
+                 % (spec['cls'], spec['Ls'], spec['wrap']['n_species']), {'spec': {k: v for k, v in spec.items() if k != 'queries'}})
+    for k in sinfo:
+        ctx.count('model-species', [k, specs[k]['cls'], specs[k]['Ls'], specs[k]['wrap']['n_species']], nontrivial=specs[k]['Lu'] > 1 or specs[k]['wrap']['n_species'] > 1)
     tim['coq'] = round(time.time() - t0, 1)
     ctx.cov['phase_end_seconds'] = tim
     ctx.cov['traces_validated_against_impl'] = len(coq_cases) + len(ocases) + len(vcases)
@@ -1125,7 +1516,8 @@ def main(ctx):
     ctx.assumptions += [
         'C19 model: Lattice.order is an input of the model (its construction by get_order is modelled and proved separately; '
         'get_order_grouped, folded orders, MultiSpecies/Irregular/Helical order construction are oracle-checked only)',
-        'C19 not modelled in Coq: HelicalLattice (oracle only), mps2lat_values_masked and multi-axis mps2lat_values (oracle only; the 1D '
+        'C19 not modelled in Coq: HelicalLattice index maps / couplings (oracle only; order and N_sites after enlarge_mps_unit_cell are '
+        'modelled in Model/LatticeTransform.v), mps2lat_values_masked and multi-axis mps2lat_values (oracle only; the 1D '
         'mps2lat_values(A) and mps2lat_values(A, u=u) are modelled in Model/LatticeVals.v), positions/distances (float, oracle only)',
     ]
     return ctx.finish(RULE, 'theorems of coq/Props/C19.v (all dimensions, sizes, orders) about Model/Lattice.v; the model is run against '
@@ -1135,6 +1527,9 @@ def main(ctx):
 
 RULE = ('lattices: Chain/Ladder/NLegLadder/Square/Triangular/Honeycomb/Kagome/generic 3D-4D x sizes (<=3x3 quick, <=4x4 thorough) x every '
         'combination of open/periodic/shifted bc x finite/infinite(/segment) x named, standard-tuple, grouped and randomly permuted orders; '
-        'MultiSpecies, Irregular (random removed/added sites), Helical on top; per lattice all MPS indices (two extra unit cells for infinite), '
+        'MultiSpecies, Irregular (random removed/added sites), Helical on top; enlarge_mps_unit_cell(2..3) / extract_segment(first, last | '
+        'enlarge) applied to sampled lattices of each of these kinds (helical: both with and without growth of the regular lattice); '
+        'MultiSpeciesLattice over every simple class x 1..3 species with the pairs checked by position and site type; '
+        'per lattice all MPS indices (two extra unit cells for infinite), '
         'all lattice indices, all displacement vectors |dx_a| <= L_a (+1) for up to 4 (u1,u2) pairs, random multi-couplings; '
         'a coupling case is non-trivial when at least one pair exists; distinct = distinct (lattice, query).')
